@@ -253,6 +253,12 @@ func (w *world) step(a *sess.Act) (bool, error) {
 	w.sh.mu.Unlock()
 	w.r.Eval(a.X+":"+hashLine(line), malformed)
 
+	if line.EOF && w.quickSpin() {
+		// the server is busy before the stream is cut: whatever is found afterwards would not be this line's doing
+		if !w.spinCheck("eof/unattributed", "an earlier line of this server (found before "+clip(line.Text, 60)+" was sent)") {
+			return false, nil
+		}
+	}
 	rss0 := w.srv.RSSKiB()
 	mon := sess.StartMonitor(w.srv.RSSKiB)
 	o, kind, waited := w.await(c, line, sig)
@@ -345,7 +351,11 @@ func (w *world) step(a *sess.Act) (bool, error) {
 		}
 	}
 	if !insync {
+		// the harness gives this connection up: for the server a client that vanished, maybe in the middle of a line
 		c.Close()
+		if w.quickSpin() && !w.spinCheck(sig, where+" (left unanswered)") {
+			return false, nil
+		}
 	}
 	if !w.probeOthers(a, sig, where) {
 		return false, nil
@@ -433,10 +443,20 @@ func (w *world) afterDisconnect(sig, where string) (bool, error) {
 	w.sh.spinDone[sig]++
 	w.sh.mu.Unlock()
 	w.sinceSpin++
-	if n < 2 {
+	if n < 1 || w.quickSpin() {
 		return w.spinCheck(sig, where), nil
 	}
 	return true, nil
+}
+
+// quickSpin is a cheap look (a quarter of a second) whether the server is burning CPU right now; it only
+// decides whether the full check is worth its time.
+func (w *world) quickSpin() bool {
+	pid := w.srv.Pid()
+	c0 := sess.CPUTicks(pid)
+	time.Sleep(250 * time.Millisecond)
+	c1 := sess.CPUTicks(pid)
+	return c0 >= 0 && c1-c0 >= 3
 }
 
 // spinCheck returns false (after restarting the server) when the server keeps burning CPU with no client talking.
@@ -448,10 +468,11 @@ func (w *world) spinCheck(sig, where string) bool {
 	w.sinceSpin = 0
 	time.Sleep(300 * time.Millisecond)
 	rss0 := w.srv.RSSKiB()
+	var c0, c1 int64
 	for i := 0; i < 3; i++ {
-		c0 := sess.CPUTicks(pid)
+		c0 = sess.CPUTicks(pid)
 		time.Sleep(time.Second)
-		c1 := sess.CPUTicks(pid)
+		c1 = sess.CPUTicks(pid)
 		if c1 < 0 {
 			return !w.crashed(where)
 		}
@@ -459,12 +480,9 @@ func (w *world) spinCheck(sig, where string) bool {
 			return true
 		}
 	}
-	c0 := sess.CPUTicks(pid)
-	time.Sleep(2 * time.Second)
-	c1 := sess.CPUTicks(pid)
 	rss1 := w.srv.RSSKiB()
-	w.violate(sig+"/spin-after-disconnect", fmt.Sprintf("%s, then the client closed the connection: 5 s later the server still uses %d%% of a core with no client talking to it, resident set %d -> %d MiB",
-		where, (c1-c0)/2, rss0/1024, rss1/1024))
+	w.violate(sig+"/spin-after-disconnect", fmt.Sprintf("%s, then the client closed the connection: 3 s later the server still uses %d%% of a core with no client talking to it, resident set %d -> %d MiB in those 3 s",
+		where, c1-c0, rss0/1024, rss1/1024))
 	w.restart()
 	return false
 }
@@ -538,10 +556,6 @@ func replayBehaviours(r *ev.Run, sh *shared, bs []*sess.Behaviour, part, parts i
 		if sampleEvery > 0 && n%sampleEvery == 1 {
 			r.Sample(map[string]interface{}{"start": b.Start, "classes": b.Sig(), "concrete": append([]string{}, w.log...)})
 		}
-		// a goroutine left spinning by an earlier disconnect keeps spinning: look from time to time
-		if w.sinceSpin >= 40 && w.srv != nil {
-			w.spinCheck("eof/unattributed", "one of the last 40 streams that ended in the middle of a token, string or literal")
-		}
 	}
 	if w.srv != nil && w.sinceSpin > 0 {
 		w.spinCheck("eof/unattributed", "one of the last streams that ended in the middle of a token, string or literal")
@@ -550,20 +564,31 @@ func replayBehaviours(r *ev.Run, sh *shared, bs []*sess.Behaviour, part, parts i
 
 func walkGraph(r *ev.Run, sh *shared, m *sess.Model, seed int64) {
 	pl := sess.NewPlanner(m, 0, 1)
-	restarts := 0
-	for pl.Left() > 0 && restarts < 50 {
-		w, err := newWorld(r, sh, "errrun", seed+int64(restarts))
-		if err != nil {
-			r.Machinery("cannot start a server: %v", err)
-			return
-		}
-		w.rend = sess.NewRenderer(w.seed)
-		w.start = "NotAuth"
-		if err := w.prelude("s1", "NotAuth"); err != nil {
-			r.Machinery("%v", err)
+	w, err := newWorld(r, sh, "errrun", seed)
+	if err != nil {
+		r.Machinery("cannot start a server: %v", err)
+		return
+	}
+	defer func() {
+		if w.srv != nil {
 			w.stop()
+		}
+	}()
+	w.rend = sess.NewRenderer(w.seed)
+	w.start = "NotAuth"
+	resets := 0
+	for pl.Left() > 0 && resets < 600 {
+		// a new connection is the initial state of this configuration (the server keeps nothing else)
+		if w.srv == nil {
+			r.Machinery("errrun: no server")
 			return
 		}
+		w.acts = nil
+		if err := w.prelude("s1", "NotAuth"); err != nil {
+			r.Machinery("errrun: %v", err)
+			return
+		}
+		w.log = append(w.log, "--- new connection")
 		cur := m.Init
 		fresh := true
 		ok := true
@@ -572,7 +597,6 @@ func walkGraph(r *ev.Run, sh *shared, m *sess.Model, seed int64) {
 			if path == nil {
 				if fresh {
 					r.Machinery("errrun: %d transitions cannot be reached from the initial state", pl.Left())
-					w.stop()
 					return
 				}
 				break
@@ -583,9 +607,6 @@ func walkGraph(r *ev.Run, sh *shared, m *sess.Model, seed int64) {
 				pl.MarkCovered(t)
 				if err != nil {
 					r.Machinery("errrun: %v", err)
-					if w.srv != nil {
-						w.stop()
-					}
 					return
 				}
 				if !ok || w.srv == nil {
@@ -595,10 +616,7 @@ func walkGraph(r *ev.Run, sh *shared, m *sess.Model, seed int64) {
 				cur = t.PostKey
 			}
 		}
-		if w.srv != nil {
-			w.stop()
-		}
-		restarts++
+		resets++
 	}
 	if pl.Left() > 0 {
 		r.Machinery("errrun: %d transitions not executed", pl.Left())
@@ -684,7 +702,7 @@ func run(r *ev.Run, tier, replay string) {
 	r.Set("rule", "classes: TLC enumerates exhaustively every sequence of input classes of the configured length from each start phase (NotAuth, Auth, Selected) and the whole graph of the consecutive-error counter, with the acceptable results; bytes: each class occurrence is rendered as one of several concrete byte strings chosen by the seed (VERIF_SEED); evaluations = lines sent; non-trivial = a malformed / odd / cut-off line (not the valid commands in between); distinct = distinct (class, byte string). classes covered and instances tried are reported separately (input_classes_covered, phase_class_pairs_covered, malformed_instances_tried_distinct)")
 	r.Assumptions = []string{
 		"inside a class the bytes are sampled, not exhausted: the claim is exploration, not model checking",
-		"hang: no completion although the server keeps using CPU time for 45 s (quick) / 150 s (thorough); not answered: no completion and the server used no CPU time for 10 s (it waits for input); bloat: resident set +300 MiB during one line; spinning: more than 40% of a core in each of three consecutive seconds with no client connected to the worked connection",
+		"hang: no completion although the server keeps using CPU time for 45 s (quick) / 150 s (thorough); not answered: no completion and the server used no CPU time for 10 s (it waits for input); bloat: resident set +300 MiB during one line; spinning: more than 10% of a core in each of three consecutive seconds with no client connected to the worked connection",
 		"a heavy line (10^6 nesting, 1 MB atom) is only explored as the first line of a sequence, followed by one NOOP",
 		"raw TLS hello: the client gives up after sending it; whether the server answers BAD or closes is not judged",
 		"the servers run without TLS; login jail time 1 ms so that failed logins inside malformed lines do not delay later lines",
